@@ -68,10 +68,12 @@ def explore_mutation(ctx, shape, tier, report):
         ctx.node_size_list.append((node, size))
         old_author = old_room = None
         old_node = None
+        old_mdate = None
         if old:
             old_author = w.atom('old_author', KEYS, 'bytes', n=33)
             old_room = w.atom('old_room', ROOMS, 'uid', n=16) if old == 2 else None
-            old_node = w.node(id=nid, room_id=old_room, cdate=cdate, mdate=w.i64('old_mdate'), entity=short, author=old_author)
+            old_mdate = w.i64('old_mdate')
+            old_node = w.node(id=nid, room_id=old_room, cdate=cdate, mdate=old_mdate, entity=short, author=old_author)
         ntm = w.struct('NodeToMutate', id=nid, date=date, entity=entity, room_id=some(room), node=some(node), node_fts_str=none(),
                        old_node=w.opt(old_node), old_fts_str=none(), enable_full_text=True)
         ie = w.struct('InsertEntity', name=S(lit='x'), node_to_mutate=ntm, edge_deletions=VecV(), edge_deletions_log=VecV(), edge_insertions=VecV(),
@@ -80,9 +82,9 @@ def explore_mutation(ctx, shape, tier, report):
         node2 = clone_val(node)
         ctx.node_size_list.append((node2, size))
         nti = w.struct('NodeToInsert', id=nid, node=some(node2), entity_name=some(entity), index=True, old_room_id=w.opt(old_room),
-                       old_mdate=w.i64('old_mdate2'), old_verifying_key=w.opt(old_author), old_local_id=none(), old_fts_str=none(), node_fts_str=none())
+                       old_mdate=old_mdate if old_mdate is not None else w.i64('old_mdate2'), old_verifying_key=w.opt(old_author), old_local_id=none(), old_fts_str=none(), node_fts_str=none())
         info = dict(part='mutation', rooms=rooms_ev, caller=caller, date=date, entity=entity, room=room, old=old, old_author=old_author,
-                    old_room=old_room, size=size, max_size=max_size, nid=nid)
+                    old_room=old_room, size=size, max_size=max_size, nid=nid, old_mdate=old_mdate)
         try:
             res = ctx.exec_fn(vem, [Ref(Cell(ra)), Ref(Cell(ie), True), Ref(Cell(caller))])
             remote = ctx.call(vn, [Ref(Cell(ra)), Ref(Cell(nti))])
@@ -110,21 +112,22 @@ def explore_mutation(ctx, shape, tier, report):
 
 def scenario_mutation(ctx, m, kind, info):
     c = Concretizer(m)
-    over = bool(z3.is_true(m.eval(z3.UGT(info['size'].z(), info['max_size'].z()), model_completion=True)))
+    rel = size_relation(m, info['size'], info['max_size'])
+    over = rel == 'gt'
     room = c.atom(info['room'], 'room')
     caller = c.atom(info['caller'], 'key')
-    js = ('{"pad":"%s"}' % ('x' * 600)) if over else '{}'
-    node = dict(room=room, cdate=0, mdate=c.int(info['date']), short='9.9', author=caller, json=js)
+    node = dict(room=room, cdate=0, mdate=c.int(info['date']), short='9.9', author=caller, json='{}')
     oldd = None
     if info['old']:
-        oldd = dict(room=None if info['old_room'] is None else c.atom(info['old_room'], 'room'), cdate=0, mdate=0, short='9.9',
+        oldd = dict(room=None if info['old_room'] is None else c.atom(info['old_room'], 'room'), cdate=0, mdate=c.int(info['old_mdate']), short='9.9',
                     author=c.atom(info['old_author'], 'key'))
-    sc = dict(kind='c12_mutation', property='C12', rooms=[c.room(ev) for ev in info['rooms']], caller=caller, max_node_size=400 if over else 1 << 40,
+    sc = dict(kind='c12_mutation', property='C12', rooms=[c.room(ev) for ev in info['rooms']], caller=caller, size_rel=rel,
               tree=dict(id=c.atom(info['nid'], 'uid'), date=c.int(info['date']), entity=c.atom(info['entity'], 'ent'), room=room, node=node, old=oldd,
                         dels=[], subs={}),
               id=c.atom(info['nid'], 'uid'), node=node, entity_name=c.atom(info['entity'], 'ent'),
               old_room=None if not info['old'] or info['old_room'] is None else c.atom(info['old_room'], 'room'),
-              old_key=None if not info['old'] else c.atom(info['old_author'], 'key'))
+              old_key=None if not info['old'] else c.atom(info['old_author'], 'key'),
+              old_mdate=c.int(info['old_mdate']) if info['old'] else 0)
     if kind == 'sample':
         return sc
     if kind == 'panic':
@@ -135,8 +138,8 @@ def scenario_mutation(ctx, m, kind, info):
     role = []
     if info['old'] == 2 and not z3.is_true(m.eval(seq(info['old_room'], info['room']), model_completion=True)):
         role.append('room-change')
-    if over:
-        role.append('oversized')
+    if rel != 'lt':
+        role.append('size-' + rel)
     if info['old'] and not z3.is_true(m.eval(seq(info['old_author'], info['caller']), model_completion=True)):
         role.append('foreign-row')
     sc['what'] = 'local path %s but a peer %s the same write (%s)' % ('accepts' if lo else 'refuses', 'refuses' if lo else 'accepts', ','.join(role))
